@@ -169,4 +169,1076 @@ theorem deposits_addBalance (s : State) (b : Addr × Denom × Int) : (addBalance
   · rfl
   · unfold setSupply setBalance; rfl
 
+/-! ### purchase -/
+
+theorem nodeSubscribe_escrow {s s' : State} {frm node : Addr} {gb hr : Int} {denom : Denom}
+    (h : nodeSubscribe s frm node gb hr denom = .ok s') (hgb0 : 0 ≤ gb) (hhr0 : 0 ≤ hr)
+    (hc : CountInv s) (hn : Tbl.Nodup s.subs) (hi : EscrowSplit s) : EscrowSplit s' := by
+  have hf := hc.fresh
+  unfold nodeSubscribe createSubscriptionForNode at h
+  simp only [bind_eq_ok, pure_eq_ok, require_eq_ok, orReject_eq_ok] at h
+  obtain ⟨_, _, _, _, r, ⟨n, _, _, _, hr'⟩, rfl⟩ := h
+  split at hr'
+  · rename_i hgb
+    unfold createNodeSubGB at hr'
+    simp only [bind_eq_ok, pure_eq_ok, orReject_eq_ok] at hr'
+    obtain ⟨price, _, bytes, _, amt, _, dep, hdep, s1, h1, granted, hg, rfl⟩ := hr'
+    have hg' := SInt.mul_eq_ok hg
+    subst hg'
+    obtain ⟨edep, hamt⟩ := newCoin_eq_ok hdep
+    have hfr := addDeposit_frame h1
+    have hD := addDeposit_escrow h1
+    have v1 := subView_of_moneyFrame hfr
+    have e1s : s1.subs = s.subs := congrArg SubView.subs v1
+    have e1a : s1.allocs = s.allocs := congrArg SubView.allocs v1
+    have e1p : s1.payouts = s.payouts := congrArg SubView.payouts v1
+    generalize hs' : emit _ _ = s'
+    have eS : s'.subs = s.subs.set (s.subCount.getD 0 + 1)
+        (Sub.mk (s.subCount.getD 0 + 1) frm (s.time + 90 * day) .StatusActive s.time (.node node gb 0 dep)) := by
+      rw [← hs', ← e1s]; rfl
+    have eA : s'.allocs = s.allocs.set (s.subCount.getD 0 + 1, frm)
+        { id := s.subCount.getD 0 + 1, addr := frm, granted := Gigabyte * gb, used := 0 } := by
+      rw [← hs', ← e1a]; rfl
+    have eP : s'.payouts = s.payouts := by rw [← hs', ← e1p]; simp only [emit, setAllocation, insertSub]
+    have eD : s'.deposits = s1.deposits := by rw [← hs']; simp only [emit, setAllocation, insertSub]
+    have hal : s'.allocs.get (s.subCount.getD 0 + 1, frm) =
+        some { id := s.subCount.getD 0 + 1, addr := frm, granted := Gigabyte * gb, used := 0 } := by
+      rw [eA, Tbl.get_set]; simp
+    refine EscrowSplit.create hi hn hf.subs eS ?_ ?_ ?_ ?_
+    · intro i a hne
+      rw [eA, Tbl.get_set_ne _ _ (by intro e; exact hne (Prod.mk.inj e).1.symm)]
+    · intro i hne; rw [eP]
+    · intro a d
+      rw [escrowOf_deposits eD, hD a d, rem_gb rfl hgb, usedOf_some hal, charge_zero]
+      simp only [Int.sub_zero]
+      by_cases e : frm = a <;> by_cases e2 : dep.denom = d <;> simp [e, e2]
+    · unfold SubWF
+      simp only []
+      refine ⟨by rw [edep]; exact hamt, Or.inl ⟨by omega, trivial, _, hal, rfl⟩⟩
+  · rename_i hgb
+    have hgb' : gb = 0 := by simpa using hgb
+    subst hgb'
+    unfold createNodeSubHr at hr'
+    simp only [bind_eq_ok, pure_eq_ok, orReject_eq_ok] at hr'
+    obtain ⟨price, _, amt, hamt', dep, hdep, s1, h1, pa, hq, hourly, hh, rfl⟩ := hr'
+    have ea := SInt.mul_eq_ok hamt'
+    obtain ⟨edep, hamt⟩ := newCoin_eq_ok hdep
+    obtain ⟨hhr, epa⟩ := quo_eq_ok hq
+    obtain ⟨ehourly, hpa⟩ := newCoin_eq_ok hh
+    have hfr := addDeposit_frame h1
+    have hD := addDeposit_escrow h1
+    have v1 := subView_of_moneyFrame hfr
+    have e1s : s1.subs = s.subs := congrArg SubView.subs v1
+    have e1a : s1.allocs = s.allocs := congrArg SubView.allocs v1
+    have e1p : s1.payouts = s.payouts := congrArg SubView.payouts v1
+    generalize hs' : emit _ _ = s'
+    have eS : s'.subs = s.subs.set (s.subCount.getD 0 + 1)
+        (Sub.mk (s.subCount.getD 0 + 1) frm (s.time + hr * hour) .StatusActive s.time (.node node 0 hr dep)) := by
+      rw [← hs', ← e1s]; simp only [emit, insertPayout, insertSub]
+    have eA : s'.allocs = s.allocs := by rw [← hs', ← e1a]; simp only [emit, insertPayout, insertSub]
+    have eP : s'.payouts = s.payouts.set (s.subCount.getD 0 + 1)
+        { id := s.subCount.getD 0 + 1, addr := frm, node := node, hours := hr, price := hourly, nextAt := s.time } := by
+      rw [← hs', ← e1p]; simp only [emit, insertPayout, insertSub]
+    have eD : s'.deposits = s1.deposits := by rw [← hs']; simp only [emit, insertPayout, insertSub]
+    have hpay : s'.payouts.get (s.subCount.getD 0 + 1) =
+        some { id := s.subCount.getD 0 + 1, addr := frm, node := node, hours := hr, price := hourly, nextAt := s.time } := by
+      rw [eP, Tbl.get_set]; simp
+    have hmul : hourly.amount * hr = dep.amount := by
+      rw [ehourly, epa, edep, ea]
+      simp only []
+      rw [Int.mul_tdiv_cancel _ hhr]
+    have hden : hourly.denom = dep.denom := by rw [ehourly]
+    refine EscrowSplit.create hi hn hf.subs eS ?_ ?_ ?_ ?_
+    · intro i a hne; rw [eA]
+    · intro i hne
+      rw [eP, Tbl.get_set_ne _ _ (Ne.symm hne)]
+    · intro a d
+      rw [escrowOf_deposits eD, hD a d, rem_hr rfl hpay]
+      simp only [hmul, hden]
+      by_cases e : frm = a <;> by_cases e2 : dep.denom = d <;> simp [e, e2]
+    · unfold SubWF
+      simp only []
+      refine ⟨by rw [edep]; exact hamt, Or.inr ⟨trivial, by omega, _, hpay, rfl, hden, ?_, hmul, le_refl _⟩⟩
+      rw [ehourly]; exact hpa
+
+
+theorem planSubscribe_rest {s s' : State} {frm : Addr} {id : Nat} {denom : Denom}
+    (h : planSubscribe s frm id denom = .ok s') : s'.payouts = s.payouts ∧ s'.deposits = s.deposits := by
+  unfold planSubscribe createSubscriptionForPlan at h
+  simp only [bind_eq_ok, pure_eq_ok, require_eq_ok, requireP_eq_ok, orReject_eq_ok] at h
+  obtain ⟨r, ⟨plan, hplan, _, _, price, _, reward, _, s1, h1, payAmt, _, _, _, s2, h2, granted, hg, rfl⟩, rfl⟩ := h
+  have hfr := (sendCoinFromAccountToModule_frame h1).trans (sendCoin_frame h2)
+  have e1p : s2.payouts = s.payouts := congrArg SubView.payouts (subView_of_moneyFrame hfr)
+  have e1d : s2.deposits = s.deposits := (sendCoin_deposits h2).trans (sendCoinFromAccountToModule_deposits h1)
+  constructor
+  · rw [← e1p]; simp only [emit, setAllocation, insertSub]
+  · rw [← e1d]; simp only [emit, setAllocation, insertSub]
+
+theorem planSubscribe_escrow {s s' : State} {frm : Addr} {id : Nat} {denom : Denom}
+    (h : planSubscribe s frm id denom = .ok s') (hc : CountInv s) (hn : Tbl.Nodup s.subs) (hi : EscrowSplit s) :
+    EscrowSplit s' := by
+  have hf := hc.fresh
+  obtain ⟨plan, x, d, hplan, hk, eS, eA⟩ := planSubscribe_tables h
+  obtain ⟨eP, eD⟩ := planSubscribe_rest h
+  refine EscrowSplit.create hi hn hf.subs eS ?_ ?_ ?_ (subWF_plan hk)
+  · intro i a hne
+    rw [eA, Tbl.get_set_ne _ _ (by intro e; exact hne (Prod.mk.inj e).1.symm)]
+  · intro i hne; rw [eP]
+  · intro a d'
+    rw [escrowOf_deposits eD, rem_plan hk]; simp
+
+/-! ### sharing a plan subscription's quota -/
+
+theorem subAllocate_rest {s s' : State} {frm toA : Addr} {id : Nat} {bytes : Int}
+    (h : subAllocate s frm id toA bytes = .ok s') : s'.payouts = s.payouts ∧ s'.deposits = s.deposits := by
+  unfold subAllocate at h
+  simp only [bind_eq_ok, pure_eq_ok, require_eq_ok, orReject_eq_ok] at h
+  obtain ⟨sub, _, _, _, _, _, fa, _, _, _, g, _, u, _, av, _, _, _, fg, _, _, _, _, _, rfl⟩ := h
+  simp only [emit, setAllocation]
+  constructor <;> split <;> rfl
+
+theorem subAllocate_escrow {s s' : State} {frm toA : Addr} {id : Nat} {bytes : Int}
+    (h : subAllocate s frm id toA bytes = .ok s') (hc : CountInv s) (hn : Tbl.Nodup s.subs) (hi : EscrowSplit s) :
+    EscrowSplit s' := by
+  obtain ⟨sub, fa, ta, hsub, hpl, _, hfa, hne, hta, _, _, eS, eA⟩ := subAllocate_tables h
+  obtain ⟨eP, eD⟩ := subAllocate_rest h
+  obtain ⟨f1, f2, _⟩ := hc.allocs _ _ _ hfa
+  have t1 : ta.id = id := by
+    rw [hta]
+    cases hg : s.allocs.get (id, toA) with
+    | none => rfl
+    | some o => exact (hc.allocs _ _ _ hg).1
+  obtain ⟨pid, dn, hk⟩ : ∃ pid dn, sub.kind = .plan pid dn := by
+    unfold isPlanSub at hpl
+    cases hkd : sub.kind with
+    | node n gb hr dep => rw [hkd] at hpl; simp at hpl
+    | plan pid dn => exact ⟨pid, dn, rfl⟩
+  refine EscrowSplit.rewrite (j := id) (x := sub) (x' := sub) hi hn hsub (Or.inr ⟨eS, rfl⟩) ?_ ?_ eD ?_ (subWF_plan hk)
+  · intro i a hne'
+    rw [eA, Tbl.get_set_ne _ _ (by intro e; exact hne' ((Prod.mk.inj e).1.symm.trans t1)),
+      Tbl.get_set_ne _ _ (by intro e; exact hne' ((Prod.mk.inj e).1.symm.trans f1))]
+  · intro i _; rw [eP]
+  · intro a d; rw [rem_plan hk, rem_plan hk]
+
+
+/-! ### cancellation and expiry: the record becomes inactive-pending, the payout is unscheduled -/
+
+/-- What the invariant reads of a payout record. -/
+def pcore (p : Payout) : Addr × Coin × Int := (p.addr, p.price, p.hours)
+
+theorem rem_pcore {A A' : Tbl (Nat × Addr) Alloc} {P P' : Tbl Nat Payout} {i : Nat} {x : Sub} (d : Denom)
+    (hA : A'.get (i, x.addr) = A.get (i, x.addr)) (hP : (P'.get i).map pcore = (P.get i).map pcore) :
+    rem A' P' i x d = rem A P i x d := by
+  unfold rem usedOf; rw [hA]
+  cases x.kind with
+  | plan _ _ => rfl
+  | node n gb hr dep =>
+    simp only []
+    split
+    · rfl
+    · cases h1 : P'.get i <;> cases h2 : P.get i <;> rw [h1, h2] at hP <;> simp [pcore] at hP
+      all_goals first
+        | rfl
+        | (obtain ⟨_, e2, e3⟩ := hP
+           simp only [e2, e3])
+
+theorem subWF_pcore {A A' : Tbl (Nat × Addr) Alloc} {P P' : Tbl Nat Payout} {i : Nat} {x : Sub}
+    (hA : A'.get (i, x.addr) = A.get (i, x.addr)) (hP : (P'.get i).map pcore = (P.get i).map pcore)
+    (h : SubWF A P i x) : SubWF A' P' i x := by
+  unfold SubWF at h ⊢; rw [hA]
+  cases hk : x.kind with
+  | plan _ _ => trivial
+  | node n gb hr dep =>
+    rw [hk] at h
+    simp only [] at h ⊢
+    refine ⟨h.1, ?_⟩
+    rcases h.2 with hl | ⟨h1, h2, p, hp, h3, h4, h5, h6, h7⟩
+    · exact Or.inl hl
+    · right
+      rw [hp] at hP
+      cases h1' : P'.get i with
+      | none => rw [h1'] at hP; simp at hP
+      | some p' =>
+        rw [h1'] at hP
+        simp only [Option.map_some, Option.some.injEq, pcore, Prod.mk.injEq] at hP
+        obtain ⟨e1, e2, e3⟩ := hP
+        exact ⟨h1, h2, p', rfl, by rw [e1]; exact h3, by rw [e2]; exact h4, by rw [e2]; exact h5, by rw [e2]; exact h6,
+          by rw [e3]; exact h7⟩
+
+theorem pendingDetach_escrow {s s1 s' : State} {sub : Sub} {delay : Dur} {b : Bool} (hk : Keyed s)
+    (hsub : s.subs.get sub.id = some sub)
+    (hf : SessFrame { s with subQ := s.subQ.erase (sub.inactiveAt, sub.id) } s1) (hd1 : s1.deposits = s.deposits)
+    (h : detachPayout (subToPending s1 sub delay).1 sub b = .ok s') (hn : Tbl.Nodup s.subs) (hi : EscrowSplit s) :
+    EscrowSplit s' := by
+  have eD : s'.deposits = s.deposits :=
+    (deposits_of_view (detachPayout_view h)).trans ((deposits_of_view (view_subToPending s1 sub delay)).trans hd1)
+  have hw := hi.wf _ _ hsub
+  rcases pendingDetach_view hk hf h with ⟨_, p, hp, e⟩ | ⟨_, e⟩
+  · have eS : s'.subs = _ := congrArg SubView.subs e
+    have eA : s'.allocs = s.allocs := congrArg SubView.allocs e
+    have eP : s'.payouts = s.payouts.set sub.id { p with nextAt := zeroTime } := congrArg SubView.payouts e
+    have hpc : (s'.payouts.get sub.id).map pcore = (s.payouts.get sub.id).map pcore := by
+      rw [eP, hp, Tbl.get_set]; simp [pcore]
+    refine EscrowSplit.rewrite (j := sub.id) (x := sub) hi hn hsub (Or.inl eS) ?_ ?_ eD ?_ ?_
+    · intro i a _; rw [eA]
+    · intro i hne; rw [eP, Tbl.get_set_ne _ _ (Ne.symm hne)]
+    · intro a d
+      rw [rem_kind d (x := sub) rfl rfl, rem_pcore d (by rw [eA]) hpc]
+      rfl
+    · exact subWF_kind (x := sub) rfl rfl (subWF_pcore (by rw [eA]) hpc hw)
+  · have eS : s'.subs = _ := congrArg SubView.subs e
+    have eA : s'.allocs = s.allocs := congrArg SubView.allocs e
+    have eP : s'.payouts = s.payouts := congrArg SubView.payouts e
+    refine EscrowSplit.rewrite (j := sub.id) (x := sub) hi hn hsub (Or.inl eS) ?_ ?_ eD ?_ ?_
+    · intro i a _; rw [eA]
+    · intro i hne; rw [eP]
+    · intro a d
+      rw [rem_kind d (x := sub) rfl rfl, eA, eP]
+      rfl
+    · rw [eA, eP]; exact subWF_kind (x := sub) rfl rfl hw
+
+theorem subCancel_escrow {s s' : State} {frm : Addr} {id : Nat} (h : subCancel s frm id = .ok s')
+    (hc : CountInv s) (hn : Tbl.Nodup s.subs) (hi : EscrowSplit s) : EscrowSplit s' := by
+  unfold subCancel at h
+  simp only [bind_eq_ok, require_eq_ok, orReject_eq_ok] at h
+  obtain ⟨sub, hsub, _, hst, _, _, s1, h1, h2⟩ := h
+  have hid : sub.id = id := (hc.subs _ _ hsub).1
+  subst hid
+  exact pendingDetach_escrow hc.keyed hsub (subscriptionInactivePendingHook_frame h1)
+    ((deposits_of_view (subscriptionInactivePendingHook_view h1)).trans rfl) h2 hn hi
+
+
+/-! ### the hourly payout -/
+
+theorem payoutAdvance_price (p : Payout) : (payoutAdvance p).price = p.price := by
+  unfold payoutAdvance; simp only []; split <;> rfl
+
+/-- One hourly payout takes exactly the hourly price out of the payer's escrow record, nothing else. -/
+theorem payoutStep_escrowOf {s s' : State} {k : Time × Nat} (h : payoutStep s k = .ok s') :
+    ∃ item, s.payouts.get k.2 = some item ∧ ∀ a d,
+      escrowOf s' a d = escrowOf s a d - (if item.addr = a ∧ item.price.denom = d then item.price.amount else 0) := by
+  unfold payoutStep at h
+  simp only [bind_eq_ok, pure_eq_ok, requireP_eq_ok, orPanic_eq_ok] at h
+  obtain ⟨item, hitem, reward, hrw, s2, h2, payAmt, hpa, _, hnn, s3, h3, rfl⟩ := h
+  refine ⟨item, hitem, fun a d => ?_⟩
+  have e2 := sendCoinFromDepositToModule_escrow h2 a d
+  have e3 := sendCoinFromDepositToAccount_escrow h3 a d
+  have hden := proportion_denom hrw
+  have hpay := SInt.sub_eq_ok hpa
+  have e0 : escrowOf { s with payQ := s.payQ.erase (item.nextAt, item.id) } a d = escrowOf s a d := rfl
+  have e4 : ∀ S : State, S.deposits = s3.deposits → escrowOf S a d = escrowOf s3 a d := fun S hS => escrowOf_deposits hS a d
+  rw [e0] at e2
+  have : escrowOf s3 a d = escrowOf s a d - (if item.addr = a ∧ item.price.denom = d then item.price.amount else 0) := by
+    rw [e3, e2, hden, hpay]
+    simp only []
+    split <;> omega
+  rw [← this]
+  split <;> exact e4 _ (by simp only [emit])
+
+theorem payoutStep_escrow {s s' : State} {k : Time × Nat} (h : payoutStep s k = .ok s') (hk : Keyed s) (hx : SubIdx s)
+    (hi : EscrowSplit s) : EscrowSplit s' := by
+  obtain ⟨item, hitem, hv⟩ := payoutStep_view h
+  obtain ⟨item', hitem', hD⟩ := payoutStep_escrowOf h
+  rw [hitem] at hitem'; cases hitem'
+  have hid : item.id = k.2 := hk.payouts _ _ hitem
+  have eS : s'.subs = s.subs := congrArg SubView.subs hv
+  have eA : s'.allocs = s.allocs := congrArg SubView.allocs hv
+  have eP : s'.payouts = s.payouts.set k.2 (payoutAdvance item) := by rw [← hid]; exact congrArg SubView.payouts hv
+  obtain ⟨x, hxs, _⟩ := (hx.payout k.2).mp (Tbl.has_of_get_B hitem)
+  obtain ⟨⟨gb, hr, dep, hkd, hhr, haddr⟩, _⟩ := hx.payoutRec k.2 item x hitem hxs
+  have hw := hi.wf _ _ hxs
+  have hw' := hw
+  unfold SubWF at hw'
+  rw [hkd] at hw'
+  simp only [] at hw'
+  obtain ⟨hdep, hl | ⟨hgb, hhr', p, hp, h3, h4, h5, h6, h7⟩⟩ := hw'
+  · exact absurd hl.2.1 hhr
+  · subst hgb
+    rw [hitem] at hp; cases hp
+    have hp' : s'.payouts.get k.2 = some (payoutAdvance item) := by rw [eP, Tbl.get_set]; simp
+    refine EscrowSplit.local k.2 hi hx.nodup.1 (by rw [eS]; exact hx.nodup.1) ?_ ?_ ?_ ?_ ?_
+    · intro i _; rw [eS]
+    · intro i a _; rw [eA]
+    · intro i hne; rw [eP, Tbl.get_set_ne _ _ (Ne.symm hne)]
+    · intro a d
+      rw [hD a d, contrib_some hxs, contrib_some (by rw [eS]; exact hxs), rem_hr hkd hitem, rem_hr hkd hp',
+        payoutAdvance_price, payoutAdvance_hours, haddr]
+      by_cases e1 : item.addr = a <;> by_cases e2 : item.price.denom = d <;> simp [e1, e2]
+      ring
+    · intro y hy
+      rw [eS, hxs] at hy; cases hy
+      unfold SubWF
+      rw [hkd]
+      simp only []
+      refine ⟨hdep, Or.inr ⟨trivial, hhr', _, hp', ?_, ?_, ?_, ?_, ?_⟩⟩
+      · rw [payoutAdvance_addr]; exact h3
+      · rw [payoutAdvance_price]; exact h4
+      · rw [payoutAdvance_price]; exact h5
+      · rw [payoutAdvance_price]; exact h6
+      · rw [payoutAdvance_hours]; omega
+
+
+/-! ### settlement of a session -/
+
+/-- The payment part of the settlement takes out of the payer's escrow record exactly the difference
+of the charges for the cumulative bytes after and before — fee and net payment together. -/
+theorem settleSession_escrowOf {s s' : State} {x : Session} {acc node : Addr} {dep : Coin} {gb before after : Int}
+    (h : settleSession s x acc node dep gb before after = .ok s') (hb : 0 ≤ before) (ha : 0 ≤ after) :
+    gb ≠ 0 ∧ ∀ a d, escrowOf s' a d = escrowOf s a d -
+      (if acc = a ∧ dep.denom = d then charge (Int.tdiv dep.amount gb) after - charge (Int.tdiv dep.amount gb) before else 0) := by
+  unfold settleSession subGigabytePrice at h
+  simp only [bind_eq_ok, pure_eq_ok, requireP_eq_ok] at h
+  obtain ⟨price, ⟨q, hq, hprice⟩, prev, hprev, cur, hcur, payAmt, hpay, payment, hpm, reward, hrw, s1, h1, netAmt, hnet, _, hnn,
+    s2, h2, rfl⟩ := h
+  obtain ⟨hgb, eq⟩ := quo_eq_ok hq
+  obtain ⟨eprice, hq0⟩ := newCoin_eq_ok hprice
+  subst eprice
+  have eprev := charge_of_afb hq0 hb hprev
+  have ecur := charge_of_afb hq0 ha hcur
+  have epay := SInt.sub_eq_ok hpay
+  obtain ⟨epm, _⟩ := newCoin_eq_ok hpm
+  subst epm
+  have hden := proportion_denom hrw
+  have enet := SInt.sub_eq_ok hnet
+  refine ⟨hgb, fun a d => ?_⟩
+  have e1 := sendCoinFromDepositToModule_escrow h1 a d
+  have e2 := sendCoinFromDepositToAccount_escrow h2 a d
+  have e3 : ∀ e, escrowOf (emit s2 e) a d = escrowOf s2 a d := fun _ => rfl
+  rw [e3, e2, e1, hden, enet, epay, ecur, eprev, eq]
+  simp only []
+  split <;> omega
+
+theorem allocAfterUse_used_nonneg {a : Alloc} {b : Int} (ha : 0 ≤ a.used ∧ a.used ≤ a.granted) (hb : 0 ≤ b) :
+    0 ≤ (allocAfterUse a (a.used + b)).used := (allocAfterUse_bounds ha hb).1
+
+theorem sessionInactiveHook_escrow {s s' : State} {id : Nat} {acc node : Addr} {bytes : Int}
+    (h : sessionInactiveHook s id acc node bytes = .ok s') (hb : 0 ≤ bytes) (hk : Keyed s) (hx : SubIdx s)
+    (hab : AllocBounds s) (hi : EscrowSplit s) : EscrowSplit s' := by
+  unfold sessionInactiveHook at h
+  simp only [bind_eq_ok, require_eq_ok, orReject_eq_ok] at h
+  obtain ⟨x, hxs, _, hst, sub, hsub, h⟩ := h
+  have hid : sub.id = x.sub := hk.subs _ _ hsub
+  rw [← hid] at hsub
+  split at h
+  · rw [pure_eq_ok] at h; rw [← h]; exact hi
+  · rename_i hh
+    simp only [bind_eq_ok, orReject_eq_ok] at h
+    obtain ⟨a, ha, used, hu, h⟩ := h
+    have hu' := SInt.add_eq_ok hu
+    subst hu'
+    obtain ⟨ka1, ka2⟩ := hk.allocs _ _ _ ha
+    have hbnd := hab _ _ ha
+    have hbnd' := allocAfterUse_bounds hbnd hb
+    have hw := hi.wf _ _ hsub
+    generalize hS1 : emit (setAllocation s (allocAfterUse a (a.used + bytes))) _ = S1 at h
+    have eS1 : S1.subs = s.subs := by rw [← hS1]; simp only [emit, setAllocation]
+    have eA1 : S1.allocs = s.allocs.set (sub.id, acc) (allocAfterUse a (a.used + bytes)) := by
+      rw [← hS1]; simp only [emit, setAllocation, allocAfterUse, ka1, ka2]
+    have eP1 : S1.payouts = s.payouts := by rw [← hS1]; simp only [emit, setAllocation]
+    have eD1 : S1.deposits = s.deposits := by rw [← hS1]; simp only [emit, setAllocation]
+    have hget' : ∀ T : Tbl (Nat × Addr) Alloc, T = s.allocs.set (sub.id, acc) (allocAfterUse a (a.used + bytes)) →
+        T.get (sub.id, acc) = some (allocAfterUse a (a.used + bytes)) := by
+      intro T hT; rw [hT, Tbl.get_set]; simp
+    have hoff : ∀ T : Tbl (Nat × Addr) Alloc, T = s.allocs.set (sub.id, acc) (allocAfterUse a (a.used + bytes)) →
+        ∀ i b, i ≠ sub.id → T.get (i, b) = s.allocs.get (i, b) := by
+      intro T hT i b hne
+      rw [hT, Tbl.get_set_ne _ _ (by intro e; exact hne (Prod.mk.inj e).1.symm)]
+    cases hkd : sub.kind with
+    | plan pid dn =>
+      simp only [gbInfo, hkd, pure_eq_ok] at h
+      subst h
+      refine EscrowSplit.rewrite (j := sub.id) (x := sub) (x' := sub) hi hx.nodup.1 hsub (Or.inr ⟨eS1, rfl⟩)
+        (hoff _ eA1) ?_ eD1 ?_ (subWF_plan hkd)
+      · intro i _; rw [eP1]
+      · intro a0 d; rw [rem_plan hkd, rem_plan hkd]
+    | node n gb hr dep =>
+      have hhr : hr = 0 := by
+        unfold isHourly at hh; rw [hkd] at hh; simpa using hh
+      subst hhr
+      have hw' := hw
+      unfold SubWF at hw'
+      rw [hkd] at hw'
+      simp only [] at hw'
+      obtain ⟨hdep, ⟨hgb, _, al, hal, hgr⟩ | ⟨_, hcontra, _⟩⟩ := hw'
+      · have hacc : acc = sub.addr :=
+          hx.nodeSubAlloc _ _ _ hsub (by unfold isPlanSub; rw [hkd]) (Tbl.has_of_get_B ha)
+        subst hacc
+        rw [ha] at hal; cases hal
+        have hgb' : gb ≠ 0 := by omega
+        simp only [gbInfo, hkd, hgb', ne_eq, not_false_eq_true, if_true] at h
+        obtain ⟨_, hD⟩ := settleSession_escrowOf h hbnd.1 hbnd'.1
+        have hfr := settleSession_frame h
+        have v := subView_of_moneyFrame hfr
+        have eS : s'.subs = s.subs := (congrArg SubView.subs v).trans eS1
+        have eA : s'.allocs = s.allocs.set (sub.id, sub.addr) (allocAfterUse a (a.used + bytes)) :=
+          (congrArg SubView.allocs v).trans eA1
+        have eP : s'.payouts = s.payouts := (congrArg SubView.payouts v).trans eP1
+        refine EscrowSplit.local sub.id hi hx.nodup.1 (by rw [eS]; exact hx.nodup.1) ?_ (hoff _ eA) ?_ ?_ ?_
+        · intro i _; rw [eS]
+        · intro i _; rw [eP]
+        · intro a0 d
+          rw [hD a0 d, escrowOf_deposits eD1, contrib_some hsub, contrib_some (by rw [eS]; exact hsub),
+            rem_gb hkd hgb', rem_gb hkd hgb', usedOf_some ha, usedOf_some (hget' _ eA)]
+          by_cases e1 : sub.addr = a0 <;> by_cases e2 : dep.denom = d <;> simp [e1, e2]
+          omega
+        · intro y hy
+          rw [eS, hsub] at hy; cases hy
+          unfold SubWF
+          rw [hkd]
+          simp only []
+          exact ⟨hdep, Or.inl ⟨hgb, trivial, _, hget' _ eA, hgr⟩⟩
+      · omega
+
+
+theorem sessionStep_escrow {s s' : State} {k : Time × Nat} (h : sessionStep s k = .ok s') (hk : Keyed s) (hx : SubIdx s)
+    (hal : AllocInv s) (hi : EscrowSplit s) : EscrowSplit s' := by
+  obtain ⟨item, hitem, ⟨_, rfl⟩ | ⟨_, s2, h2, rfl⟩⟩ := sessionStep_eff h
+  · exact hi.of_views (s := s) rfl (deposits_of_view (view_sessionToPending s item))
+  · have hnn := hal.sessNonneg _ _ hitem
+    have i0 : EscrowSplit { s with sessQ := s.sessQ.erase (item.inactiveAt, item.id) } := hi.of_views (s := s) rfl rfl
+    have i2 := sessionInactiveHook_escrow h2 (by omega) (Keyed.of_view (s := s) rfl hk) (SubIdx.of_view (s := s) rfl hx)
+      (fun k al hg => hal.bounds k al hg) i0
+    exact i2.of_views (s := s2) rfl (by simp only [removeSession, emit])
+
+
+/-! ### removal of an expired subscription: refund of the unsettled part -/
+
+/-- **The refund is exactly the unsettled part.** `refundSub` takes out of the subscriber's escrow record
+precisely `rem` of the removed subscription, and touches no other account's record. -/
+theorem refundSub_escrowOf {s s' : State} {item : Sub} (h : refundSub s item = .ok s')
+    (hw : SubWF s.allocs s.payouts item.id item) (hab : AllocBounds s) :
+    ∀ a d, escrowOf s' a d = escrowOf s a d - (if item.addr = a then rem s.allocs s.payouts item.id item d else 0) := by
+  intro a0 d
+  unfold refundSub at h
+  cases hkd : item.kind with
+  | plan pid dn =>
+    rw [hkd] at h
+    simp only [pure_eq_ok] at h
+    subst h
+    rw [rem_plan hkd]; simp
+  | node n gb hr dep =>
+    rw [hkd] at h
+    simp only [bind_eq_ok] at h
+    obtain ⟨s1, h1, h2⟩ := h
+    unfold SubWF at hw
+    rw [hkd] at hw
+    simp only [] at hw
+    obtain ⟨hdep, ⟨hgb, hhr, al, hal, _⟩ | ⟨hgb, hhr, p, hp, h3, h4, h5, h6, h7⟩⟩ := hw
+    · have hgb' : gb ≠ 0 := by omega
+      simp only [hgb', ne_eq, not_false_eq_true, if_true] at h1
+      simp only [hhr, ne_eq, not_true_eq_false, if_false, pure_eq_ok] at h2
+      subst h2
+      unfold refundGB subGigabytePrice at h1
+      simp only [bind_eq_ok, pure_eq_ok, orPanic_eq_ok, panicIfErr_eq_ok] at h1
+      obtain ⟨price, ⟨q, hq, hprice⟩, a, ha, paid, hpaid, ra, hra, refund, hrf, s2, h2', rfl⟩ := h1
+      rw [hal] at ha; cases ha
+      obtain ⟨_, eq⟩ := quo_eq_ok hq
+      obtain ⟨eprice, hq0⟩ := newCoin_eq_ok hprice
+      subst eprice
+      have epaid := charge_of_afb hq0 (hab _ _ hal).1 hpaid
+      have era := SInt.sub_eq_ok hra
+      obtain ⟨erf, _⟩ := newCoin_eq_ok hrf
+      subst erf
+      have e2 := subtractDeposit_escrow h2' a0 d
+      have e3 : ∀ e, escrowOf (emit s2 e) a0 d = escrowOf s2 a0 d := fun _ => rfl
+      rw [e3, e2, rem_gb hkd hgb', usedOf_some hal, era, epaid, eq]
+      simp only []
+      by_cases c1 : item.addr = a0 <;> by_cases c2 : dep.denom = d <;> simp [c1, c2]
+    · subst hgb
+      simp only [ne_eq, not_true_eq_false, if_false, pure_eq_ok] at h1
+      subst h1
+      have hhr' : hr ≠ 0 := by omega
+      simp only [hhr', ne_eq, not_false_eq_true, if_true] at h2
+      unfold refundHr at h2
+      simp only [bind_eq_ok, pure_eq_ok, orPanic_eq_ok, panicIfErr_eq_ok] at h2
+      obtain ⟨p', hp', ra, hra, refund, hrf, s2, h2', rfl⟩ := h2
+      rw [hp] at hp'; cases hp'
+      have era := SInt.mul_eq_ok hra
+      obtain ⟨erf, _⟩ := newCoin_eq_ok hrf
+      subst erf
+      have e2 := subtractDeposit_escrow h2' a0 d
+      have e3 : ∀ e, escrowOf (emit s2 e) a0 d = escrowOf s2 a0 d := fun _ => rfl
+      rw [e3, e2, rem_hr hkd hp, era, h3]
+      simp only []
+      by_cases c1 : item.addr = a0 <;> by_cases c2 : p.price.denom = d <;> simp [c1, c2]
+
+theorem removal_escrow {s s2 s' : State} {item : Sub} (hk : Keyed s) (hx : SubIdx s) (hab : AllocBounds s)
+    (hsub : s.subs.get item.id = some item)
+    (h2 : refundSub { s with subQ := s.subQ.erase (item.inactiveAt, item.id) } item = .ok s2)
+    (h3 : removePayout (removeSubRecords s2 item) item = .ok s') (hi : EscrowSplit s) : EscrowSplit s' := by
+  have hD2 := refundSub_escrowOf h2 (hi.wf _ _ hsub) (fun k al hg => hab k al hg)
+  have eD : s'.deposits = s2.deposits :=
+    (deposits_of_view (removePayout_view h3)).trans (deposits_of_view (view_removeSubRecords s2 item))
+  have hD : ∀ a d, escrowOf s' a d = escrowOf s a d - contrib s item.id a d + 0 := by
+    intro a d
+    rw [escrowOf_deposits eD, hD2 a d, contrib_some hsub]
+    simp only [Int.add_zero]
+    rfl
+  have hfin : ∀ (eS : s'.subs = s.subs.erase item.id)
+      (hA : ∀ i a, i ≠ item.id → s'.allocs.get (i, a) = s.allocs.get (i, a))
+      (hP : ∀ i, i ≠ item.id → s'.payouts.get i = s.payouts.get i), EscrowSplit s' := by
+    intro eS hA hP
+    have hnone : s'.subs.get item.id = none := by rw [eS, Tbl.get_erase]; simp
+    refine EscrowSplit.local item.id hi hx.nodup.1 (by rw [eS]; exact Tbl.nodup_erase hx.nodup.1 _) ?_ hA hP ?_ ?_
+    · intro i hne; rw [eS, Tbl.get_erase_ne _ (Ne.symm hne)]
+    · intro a d; rw [hD a d, contrib_none hnone]
+    · intro y hy; rw [hnone] at hy; cases hy
+  rcases removal_view hk hx hsub (refundSub_frame h2) h3 with ⟨n, gb, hr, dep, hkd, hr0, e⟩ | ⟨n, gb, hr, dep, p, hkd, hr0, hp, e⟩ |
+      ⟨pid, d, A, B, hkd, hA, hB, nA, nB, e⟩
+  · have eA : s'.allocs = s.allocs.erase (item.id, item.addr) := congrArg SubView.allocs e
+    have eP : s'.payouts = s.payouts := congrArg SubView.payouts e
+    refine hfin (congrArg SubView.subs e) ?_ ?_
+    · intro i a hne
+      rw [eA, Tbl.get_erase_ne _ (by intro e'; exact hne (Prod.mk.inj e').1.symm)]
+    · intro i _; rw [eP]
+  · have eA : s'.allocs = s.allocs.erase (item.id, item.addr) := congrArg SubView.allocs e
+    have eP : s'.payouts = s.payouts.erase item.id := congrArg SubView.payouts e
+    refine hfin (congrArg SubView.subs e) ?_ ?_
+    · intro i a hne
+      rw [eA, Tbl.get_erase_ne _ (by intro e'; exact hne (Prod.mk.inj e').1.symm)]
+    · intro i hne; rw [eP, Tbl.get_erase_ne _ (Ne.symm hne)]
+  · have eA : s'.allocs = A := congrArg SubView.allocs e
+    have eP : s'.payouts = s.payouts := congrArg SubView.payouts e
+    refine hfin (congrArg SubView.subs e) ?_ ?_
+    · intro i a hne
+      rw [eA, hA]; simp [hne]
+    · intro i _; rw [eP]
+
+theorem subscriptionStep_escrow {s s' : State} {d : Dur} {k : Time × Nat} (h : subscriptionStep d s k = .ok s')
+    (hk : Keyed s) (hx : SubIdx s) (hab : AllocBounds s) (hi : EscrowSplit s) : EscrowSplit s' := by
+  unfold subscriptionStep at h
+  simp only [bind_eq_ok, orPanic_eq_ok] at h
+  obtain ⟨item, hitem, h⟩ := h
+  have hid : item.id = k.2 := hk.subs _ _ hitem
+  rw [← hid] at hitem
+  split at h
+  · rename_i hs
+    simp only [bind_eq_ok, panicIfErr_eq_ok] at h
+    obtain ⟨s2, h2, h3⟩ := h
+    exact pendingDetach_escrow hk hitem (subscriptionInactivePendingHook_frame h2)
+      ((deposits_of_view (subscriptionInactivePendingHook_view h2)).trans rfl) h3 hx.nodup.1 hi
+  · rename_i hs
+    simp only [bind_eq_ok] at h
+    obtain ⟨s2, h2, h3⟩ := h
+    exact removal_escrow hk hx hab hitem h2 h3 hi
+
+
+/-! ### messages -/
+
+theorem EscrowSplit.clearEvents {s : State} (hi : EscrowSplit s) : EscrowSplit { s with events := [] } :=
+  hi.of_views (s := s) rfl rfl
+
+/-- Every handler keeps `EscrowSplit`; the sign conditions on the purchase come from `ValidateBasic`. -/
+theorem handle_escrow {s s' : State} {m : Msg} (h : m.handle s = .ok s') (hv : m.validateBasic = .ok ())
+    (hc : CountInv s) (hx : SubIdx s) (hi : EscrowSplit s) : EscrowSplit s' := by
+  cases m <;> simp only [Msg.handle] at h
+  case provRegister => exact hi.of_views (provRegister_subView h) (provRegister_deposits h)
+  case provUpdate => exact hi.of_views (provUpdate_subView h) (provUpdate_deposits h)
+  case nodeRegister => exact hi.of_views (nodeRegister_subView h) (nodeRegister_deposits h)
+  case nodeUpdate => exact hi.of_views (nodeUpdate_subView h) (nodeUpdate_deposits h)
+  case nodeStatus => exact hi.of_views (nodeStatus_subView h) (nodeStatus_deposits h)
+  case nodeSubscribe frm node gb hr denom =>
+    have h0 : 0 ≤ gb ∧ 0 ≤ hr := by
+      unfold Msg.validateBasic at hv
+      simp only [bind_eq_ok, require_eq_ok] at hv
+      obtain ⟨_, _, _, _, _, _, _, _, _, h0, _, h1, _⟩ := hv
+      exact ⟨by simpa using h0, by simpa using h1⟩
+    exact nodeSubscribe_escrow h h0.1 h0.2 hc hx.nodup.1 hi
+  case planCreate => exact hi.of_views (planCreate_subView h) (planCreate_deposits h)
+  case planStatus => exact hi.of_views (planStatus_subView h) (planStatus_deposits h)
+  case planLink => exact hi.of_views (planLink_subView h) (planLink_deposits h)
+  case planUnlink => exact hi.of_views (planUnlink_subView h) (planUnlink_deposits h)
+  case planSubscribe => exact planSubscribe_escrow h hc hx.nodup.1 hi
+  case subCancel => exact subCancel_escrow h hc hx.nodup.1 hi
+  case subAllocate => exact subAllocate_escrow h hc hx.nodup.1 hi
+  case sessStart => exact hi.of_views (sessStart_subView h) (sessStart_deposits h)
+  case sessUpdate => exact hi.of_views (sessUpdate_subView h) (sessUpdate_deposits h)
+  case sessEnd => exact hi.of_views (sessEnd_subView h) (sessEnd_deposits h)
+  case swap => exact hi.of_views (swap_subView h) (swap_deposits h)
+
+theorem deliver_escrow (s : State) (m : Msg) (hc : CountInv s) (hx : SubIdx s) (hi : EscrowSplit s) :
+    EscrowSplit (deliver s m).1 := by
+  have hx0 : SubIdx { s with events := [] } := SubIdx.of_view (s := s) rfl hx
+  unfold deliver
+  simp only []
+  cases hr : (do m.validateBasic; m.handle { s with events := [] } : M State) with
+  | ok s' =>
+    simp only [bind_eq_ok] at hr
+    obtain ⟨u, hv, hh⟩ := hr
+    exact handle_escrow hh hv hc.clearEvents hx0 hi.clearEvents
+  | error e => cases e <;> exact hi.clearEvents
+
+theorem gov_escrow (s : State) (c : ParamChange) (hi : EscrowSplit s) : EscrowSplit ((gov s c).getD s) := by
+  cases hg : gov s c with
+  | none => exact hi
+  | some s' => exact hi.of_views (gov_subView hg) (gov_deposits hg)
+
+/-! ### BeginBlock -/
+
+theorem payoutFold_escrow (l : List (Time × Nat)) (hl : (l.map (·.2)).Nodup) (s s' : State)
+    (h : l.foldlM (fun s k => panicIfErr (payoutStep s k)) s = .ok s')
+    (hk : Keyed s) (hx : SubIdx s) (hlive : ∀ k ∈ l, s.payQ.has k = true) (hi : EscrowSplit s) : EscrowSplit s' := by
+  induction l generalizing s with
+  | nil => simp only [List.foldlM, pure_eq_ok] at h; rw [← h]; exact hi
+  | cons k rest ih =>
+    simp only [List.foldlM, bind_eq_ok, panicIfErr_eq_ok] at h
+    obtain ⟨s1, h1, h2⟩ := h
+    simp only [List.map_cons, List.nodup_cons] at hl
+    refine ih hl.2 s1 h2 (payoutStep_keyed h1 hk) (payoutStep_subIdx h1 (hlive k (by simp)) hk hx) ?_
+      (payoutStep_escrow h1 hk hx hi)
+    intro k' hk'
+    have hne : k'.2 ≠ k.2 := by
+      intro e; exact hl.1 (e ▸ List.mem_map.mpr ⟨k', hk', rfl⟩)
+    obtain ⟨item, hitem, hv⟩ := payoutStep_view h1
+    have hid : item.id = k.2 := hk.payouts _ _ hitem
+    have e : s1.payQ = (subView s1).payQ := rfl
+    rw [e, hv]
+    simp only []
+    have hold := hlive k' (by simp [hk'])
+    obtain ⟨t', i'⟩ := k'
+    simp only at hne
+    split <;> simp [Tbl.has_set_B, Tbl.has_erase_B, hid, Ne.symm hne, hold]
+
+theorem beginBlock_escrow {s s' : State} {t : Time} (h : beginBlock s t = .ok s') (hk : Keyed s) (hx : SubIdx s)
+    (hi : EscrowSplit s) : EscrowSplit s' := by
+  unfold beginBlock haltOf at h
+  split at h <;> try contradiction
+  rename_i s'' hs
+  simp only [Except.ok.injEq] at h
+  subst h
+  unfold subscriptionBeginBlock at hs
+  have e0 : subView (distrSweep (mintBeginBlock { s with time := t, height := s.height + 1, events := [] })) = subView s := by
+    rw [subView_distrSweep]; unfold mintBeginBlock; rw [subView_mintBeginBlock_go]; rfl
+  have d0 : (distrSweep (mintBeginBlock { s with time := t, height := s.height + 1, events := [] })).deposits = s.deposits := by
+    rw [deposits_distrSweep]; unfold mintBeginBlock; rw [deposits_mintBeginBlock_go]
+  have hx0 := SubIdx.of_view e0 hx
+  have hk0 := Keyed.of_view e0 hk
+  refine payoutFold_escrow _ ?_ _ _ hs hk0 hx0 (fun k hk' => mem_dueIds hk') (hi.of_views e0 d0)
+  refine List.Nodup.map_on ?_ (nodup_dueIds _ _ hx0.nodup.2.2.2.2.2.2.2.1)
+  intro x hx' y hy exy
+  obtain ⟨p, _, hp, hn, _⟩ := (hx0.payQ x.1 x.2).mp (mem_dueIds hx')
+  obtain ⟨p', _, hp', hn', _⟩ := (hx0.payQ y.1 y.2).mp (mem_dueIds hy)
+  rw [exy, hp'] at hp
+  simp only [Option.some.injEq] at hp; subst hp
+  exact Prod.ext (hn.symm.trans hn') exy
+
+/-! ### EndBlock -/
+
+theorem nodeSweep_deposits {s s' : State} (h : nodeSweep s = .ok s') : s'.deposits = s.deposits :=
+  deposits_of_view (nodeSweep_view h)
+
+theorem nodeExpire_deposits {s s' : State} (h : nodeExpire s = .ok s') : s'.deposits = s.deposits :=
+  deposits_of_view (nodeExpire_view h)
+
+theorem endBlock_escrow {s s' : State} (h : endBlock s = .ok s') (hk : Keyed s) (hx : SubIdx s) (hal : AllocInv s)
+    (hi : EscrowSplit s) : EscrowSplit s' := by
+  unfold endBlock haltOf at h
+  split at h <;> try contradiction
+  rename_i s2 hs
+  split at hs <;> try contradiction
+  rename_i s3 hs3
+  simp only [Except.ok.injEq] at hs h
+  subst hs; subst h
+  unfold vpnEndBlock nodeEndBlock at hs3
+  simp only [bind_eq_ok] at hs3
+  obtain ⟨s1, ⟨sa, ha, hb⟩, sb, hc, hd⟩ := hs3
+  have e1 : subView s1 = subView s := by rw [nodeExpire_subView hb, nodeSweep_subView ha]; rfl
+  have e2 : psView s1 = psView s := by rw [nodeExpire_psView hb, nodeSweep_psView ha]; rfl
+  have d1 : s1.deposits = s.deposits := by rw [nodeExpire_deposits hb, nodeSweep_deposits ha]
+  have i1 : ((SubIdx s1 ∧ Keyed s1) ∧ AllocInv s1) ∧ EscrowSplit s1 :=
+    ⟨⟨⟨SubIdx.of_view e1 hx, Keyed.of_view e1 hk⟩, AllocInv.of_views e1 e2 hal⟩, hi.of_views e1 d1⟩
+  have i2 : ((SubIdx sb ∧ Keyed sb) ∧ AllocInv sb) ∧ EscrowSplit sb :=
+    foldlM_inv (fun s => ((SubIdx s ∧ Keyed s) ∧ AllocInv s) ∧ EscrowSplit s) _
+      (fun s0 k s1 h1 hp => ⟨⟨sessionStep_subIdx' h1 hp.1.1.2 hp.1.1.1, sessionStep_allocInv h1 hp.1.2⟩,
+        sessionStep_escrow h1 hp.1.1.2 hp.1.1.1 hp.1.2 hp.2⟩) _ _ _ hc i1
+  have i3 : ((SubIdx s3 ∧ Keyed s3) ∧ AllocInv s3) ∧ EscrowSplit s3 :=
+    foldlM_inv (fun s => ((SubIdx s ∧ Keyed s) ∧ AllocInv s) ∧ EscrowSplit s) _
+      (fun s0 k s1 h1 hp => ⟨⟨subscriptionStep_subIdx h1 hp.1.1.2 hp.1.1.1, subscriptionStep_allocInv h1 hp.1.2⟩,
+        subscriptionStep_escrow h1 hp.1.1.2 hp.1.1.1 hp.1.2.bounds hp.2⟩) _ _ _ hd i2
+  exact i3.2.of_views (s := s3) rfl rfl
+
+/-! ### one operation, genesis, every history -/
+
+/-- **`EscrowSplit` is kept by every operation**, given the structural invariants of the pre-state. -/
+theorem step_escrowSplit {s s' : State} {op : Op} (h : step s op = some s') (hs : StructInv s) (hi : EscrowSplit s) :
+    EscrowSplit s' := by
+  cases op with
+  | tx m =>
+    simp only [step, Option.some.injEq] at h
+    rw [← h]; exact deliver_escrow s m hs.count hs.subIdx hi
+  | begin t =>
+    simp only [step] at h
+    split at h
+    · rename_i s1 hb
+      simp only [Option.some.injEq] at h; rw [← h]; exact beginBlock_escrow hb hs.count.keyed hs.subIdx hi
+    · contradiction
+  | endB =>
+    simp only [step] at h
+    split at h
+    · rename_i s1 hb
+      simp only [Option.some.injEq] at h; rw [← h]; exact endBlock_escrow hb hs.count.keyed hs.subIdx hs.alloc hi
+    · contradiction
+  | gov c =>
+    simp only [step, Option.some.injEq] at h
+    rw [← h]; exact gov_escrow s c hi
+
+theorem genesis_escrowSplit (g : Genesis) : EscrowSplit g.state := by
+  have e1 : subView g.state = subView g.base := by
+    unfold Genesis.state
+    exact foldl_inv (fun s' => subView s' = subView g.base) addBalance
+      (fun s0 b h => (subView_addBalance s0 b).trans h) _ _ rfl
+  have d1 : g.state.deposits = g.base.deposits := by
+    unfold Genesis.state
+    exact foldl_inv (fun s' => s'.deposits = g.base.deposits) addBalance
+      (fun s0 b h => (deposits_addBalance s0 b).trans h) _ _ rfl
+  refine EscrowSplit.of_views e1 d1 ?_
+  refine ⟨fun a d => ?_, fun i x hx => ?_⟩
+  · rfl
+  · simp [Genesis.base, Tbl.get] at hx
+
+theorem escrowSplit_all_histories_from (ops : List Op) (s : State) (hs : StructInv s) (hi : EscrowSplit s) :
+    ∀ s' ∈ runTrace s ops, EscrowSplit s' := by
+  induction ops generalizing s with
+  | nil => intro s' h; simp [runTrace] at h
+  | cons op rest ih =>
+    intro s' h
+    simp only [runTrace] at h
+    cases hst : step s op with
+    | none => simp [hst] at h
+    | some s1 =>
+      simp only [hst, List.mem_cons] at h
+      have h1 := step_escrowSplit hst hs hi
+      rcases h with rfl | h
+      · exact h1
+      · exact ih s1 (step_structInv hst hs) h1 s' h
+
+/-- **Every state of every history from every genesis satisfies `EscrowSplit`** — no hypotheses. -/
+theorem escrowSplit_all_histories (g : Genesis) (ops : List Op) : ∀ s ∈ runTrace g.state ops, EscrowSplit s :=
+  escrowSplit_all_histories_from ops g.state (genesis_structInv g) (genesis_escrowSplit g)
+
+theorem reachable_escrowSplit {s : State} (h : Reachable s) : EscrowSplit s := by
+  obtain ⟨g, ops, h | h⟩ := h
+  · rw [h]; exact genesis_escrowSplit g
+  · exact escrowSplit_all_histories g ops s h
+
+
+/-! ### where the money goes: bank balances under the deposit keeper's transfers -/
+
+theorem balance_bank {s s' : State} (h : s'.bank = s.bank) (a : Addr) (d : Denom) : balance s' a d = balance s a d := by
+  unfold balance; rw [h]
+
+theorem bank_putDeposit (s : State) (a : Addr) (cs : Coins) : (putDeposit s a cs).bank = s.bank := by
+  unfold putDeposit; split <;> rfl
+
+theorem depositToAccount_balance {s s' : State} {f t : Addr} {c : Coin} (h : depositToAccount s f t c = .ok s')
+    (a : Addr) (d : Denom) :
+    balance s' a d = balance s a d - (if depositAddr = a ∧ c.denom = d then c.amount else 0) +
+      (if t = a ∧ c.denom = d then c.amount else 0) := by
+  unfold depositToAccount sendModuleToAccount at h
+  simp only [bind_eq_ok, pure_eq_ok, require_eq_ok, orReject_eq_ok] at h
+  obtain ⟨cur, hcur, _, _, s1, hs1, rfl⟩ := h
+  split at hs1
+  · simp [reject] at hs1
+  · rw [balance_bank (s := s1) (by simp only [emit, bank_putDeposit])]
+    exact (sendCoins_ok hs1).1 a d
+
+theorem depositToModule_balance {s s' : State} {f m : Addr} {c : Coin} (h : depositToModule s f m c = .ok s')
+    (a : Addr) (d : Denom) :
+    balance s' a d = balance s a d - (if depositAddr = a ∧ c.denom = d then c.amount else 0) +
+      (if m = a ∧ c.denom = d then c.amount else 0) := by
+  unfold depositToModule at h
+  simp only [bind_eq_ok, pure_eq_ok, require_eq_ok, orReject_eq_ok] at h
+  obtain ⟨cur, hcur, _, _, s1, hs1, rfl⟩ := h
+  rw [balance_bank (s := s1) (by simp only [emit, bank_putDeposit])]
+  exact (sendCoins_ok hs1).1 a d
+
+theorem subtractDeposit_balance {s s' : State} {a0 : Addr} {c : Coin} (h : subtractDeposit s a0 c = .ok s')
+    (a : Addr) (d : Denom) :
+    balance s' a d = balance s a d - (if depositAddr = a ∧ c.denom = d then c.amount else 0) +
+      (if a0 = a ∧ c.denom = d then c.amount else 0) := by
+  unfold subtractDeposit at h
+  split at h
+  · rename_i hz
+    rw [pure_eq_ok] at h; subst h; rw [hz]; simp
+  · exact depositToAccount_balance h a d
+
+theorem sendCoinFromDepositToAccount_balance {s s' : State} {f t : Addr} {c : Coin}
+    (h : sendCoinFromDepositToAccount s f t c = .ok s') (a : Addr) (d : Denom) :
+    balance s' a d = balance s a d - (if depositAddr = a ∧ c.denom = d then c.amount else 0) +
+      (if t = a ∧ c.denom = d then c.amount else 0) := by
+  unfold sendCoinFromDepositToAccount at h
+  split at h
+  · rename_i hz
+    rw [pure_eq_ok] at h; subst h; rw [hz]; simp
+  · exact depositToAccount_balance h a d
+
+theorem sendCoinFromDepositToModule_balance {s s' : State} {f m : Addr} {c : Coin}
+    (h : sendCoinFromDepositToModule s f m c = .ok s') (a : Addr) (d : Denom) :
+    balance s' a d = balance s a d - (if depositAddr = a ∧ c.denom = d then c.amount else 0) +
+      (if m = a ∧ c.denom = d then c.amount else 0) := by
+  unfold sendCoinFromDepositToModule at h
+  split at h
+  · rename_i hz
+    rw [pure_eq_ok] at h; subst h; rw [hz]; simp
+  · exact depositToModule_balance h a d
+
+/-- A transfer of `amt` of denomination `dn` out of the escrow module account: `fee` to the fee
+collector and `net` to `payee`. -/
+def PaidOut (s s' : State) (dn : Denom) (payee : Addr) (fee net : Int) : Prop :=
+  ∀ a d, balance s' a d = balance s a d - (if depositAddr = a ∧ dn = d then fee + net else 0) +
+    (if feeCollectorAddr = a ∧ dn = d then fee else 0) + (if payee = a ∧ dn = d then net else 0)
+
+/-- **An hourly payout pays exactly the hourly price**: the payer's escrow record loses the price, the
+fee collector and the node receive, together, the same amount; no other record or balance moves. -/
+theorem payoutStep_pays {s s' : State} {k : Time × Nat} (h : payoutStep s k = .ok s') :
+    ∃ item fee net, s.payouts.get k.2 = some item ∧ 0 ≤ fee ∧ 0 ≤ net ∧ fee + net = item.price.amount ∧
+      (∀ a d, escrowOf s' a d = escrowOf s a d - (if item.addr = a ∧ item.price.denom = d then item.price.amount else 0)) ∧
+      PaidOut s s' item.price.denom item.node fee net := by
+  obtain ⟨item, hitem, hD⟩ := payoutStep_escrowOf h
+  unfold payoutStep at h
+  simp only [bind_eq_ok, pure_eq_ok, requireP_eq_ok, orPanic_eq_ok] at h
+  obtain ⟨item', hitem', reward, hrw, s2, h2, payAmt, hpa, _, hnn, s3, h3, rfl⟩ := h
+  rw [hitem] at hitem'; cases hitem'
+  have hden := proportion_denom hrw
+  have hpay := SInt.sub_eq_ok hpa
+  have hr0 : 0 ≤ reward.amount := by
+    unfold GetProportionOfCoin at hrw
+    simp only [bind_eq_ok] at hrw
+    obtain ⟨t1, _, t2, _, h3'⟩ := hrw
+    obtain ⟨e, h0⟩ := newCoin_eq_ok h3'
+    rw [e]; exact h0
+  refine ⟨item, reward.amount, payAmt, hitem, hr0, by simpa using hnn, by omega, hD, fun a d => ?_⟩
+  have b2 := sendCoinFromDepositToModule_balance h2 a d
+  have b3 := sendCoinFromDepositToAccount_balance h3 a d
+  have b0 : balance { s with payQ := s.payQ.erase (item.nextAt, item.id) } a d = balance s a d := rfl
+  rw [b0, hden] at b2
+  simp only [] at b3
+  have : balance s3 a d = balance s a d - (if depositAddr = a ∧ item.price.denom = d then reward.amount + payAmt else 0) +
+      (if feeCollectorAddr = a ∧ item.price.denom = d then reward.amount else 0) +
+      (if item.node = a ∧ item.price.denom = d then payAmt else 0) := by
+    rw [b3, b2]; split <;> omega
+  rw [← this]
+  split <;> exact balance_bank (by simp only [emit]) a d
+
+/-- **A settlement pays exactly the price of the newly accounted bytes** (`charge after − charge before`
+at the subscription's price per gigabyte): out of the payer's escrow record, to the fee collector and
+the node together. -/
+theorem settleSession_pays {s s' : State} {x : Session} {acc node : Addr} {dep : Coin} {gb before after : Int}
+    (h : settleSession s x acc node dep gb before after = .ok s') (hb : 0 ≤ before) (ha : 0 ≤ after) :
+    ∃ fee net, 0 ≤ fee ∧ 0 ≤ net ∧
+      fee + net = charge (Int.tdiv dep.amount gb) after - charge (Int.tdiv dep.amount gb) before ∧
+      (∀ a d, escrowOf s' a d = escrowOf s a d -
+        (if acc = a ∧ dep.denom = d then charge (Int.tdiv dep.amount gb) after - charge (Int.tdiv dep.amount gb) before else 0)) ∧
+      PaidOut s s' dep.denom node fee net := by
+  obtain ⟨_, hD⟩ := settleSession_escrowOf h hb ha
+  unfold settleSession subGigabytePrice at h
+  simp only [bind_eq_ok, pure_eq_ok, requireP_eq_ok] at h
+  obtain ⟨price, ⟨q, hq, hprice⟩, prev, hprev, cur, hcur, payAmt, hpay, payment, hpm, reward, hrw, s1, h1, netAmt, hnet, _, hnn,
+    s2, h2, rfl⟩ := h
+  obtain ⟨hgb, eq⟩ := quo_eq_ok hq
+  obtain ⟨eprice, hq0⟩ := newCoin_eq_ok hprice
+  subst eprice
+  have eprev := charge_of_afb hq0 hb hprev
+  have ecur := charge_of_afb hq0 ha hcur
+  have epay := SInt.sub_eq_ok hpay
+  obtain ⟨epm, _⟩ := newCoin_eq_ok hpm
+  subst epm
+  have hden := proportion_denom hrw
+  have enet := SInt.sub_eq_ok hnet
+  have hr0 : 0 ≤ reward.amount := by
+    unfold GetProportionOfCoin at hrw
+    simp only [bind_eq_ok] at hrw
+    obtain ⟨t1, _, t2, _, h3'⟩ := hrw
+    obtain ⟨e, h0⟩ := newCoin_eq_ok h3'
+    rw [e]; exact h0
+  refine ⟨reward.amount, netAmt, hr0, by simpa using hnn, ?_, hD, fun a d => ?_⟩
+  · rw [enet, epay, ecur, eprev, eq]; simp only []; omega
+  · have b1 := sendCoinFromDepositToModule_balance h1 a d
+    have b2 := sendCoinFromDepositToAccount_balance h2 a d
+    have b3 : ∀ e, balance (emit s2 e) a d = balance s2 a d := fun _ => rfl
+    rw [hden] at b1
+    simp only [] at b1 b2
+    rw [b3, b2, b1]; split <;> omega
+
+
+theorem paidOut_zero (s : State) (dn : Denom) (payee : Addr) : PaidOut s s dn payee 0 0 := by
+  intro a d; simp
+
+theorem PaidOut.of_bank {s s1 s' : State} {dn : Denom} {payee : Addr} {fee net : Int} (h : PaidOut s s1 dn payee fee net)
+    (hb : s'.bank = s1.bank) : PaidOut s s' dn payee fee net := by
+  intro a d; rw [balance_bank hb]; exact h a d
+
+theorem PaidOut.of_bank_left {s0 s s' : State} {dn : Denom} {payee : Addr} {fee net : Int} (h : PaidOut s0 s' dn payee fee net)
+    (hb : s0.bank = s.bank) : PaidOut s s' dn payee fee net := by
+  intro a d; rw [← balance_bank hb]; exact h a d
+
+/-- **The refund is exactly the unsettled part**: `refundSub` moves the coin `c` with `c = rem` of the
+removed subscription from the escrow module account to the subscriber, out of the subscriber's own
+escrow record; nothing else moves. -/
+theorem refundSub_refund {s s' : State} {item : Sub} (h : refundSub s item = .ok s')
+    (hw : SubWF s.allocs s.payouts item.id item) (hab : AllocBounds s) :
+    ∃ c : Coin, 0 ≤ c.amount ∧ (∀ d, rem s.allocs s.payouts item.id item d = if c.denom = d then c.amount else 0) ∧
+      (∀ a d, escrowOf s' a d = escrowOf s a d - (if item.addr = a ∧ c.denom = d then c.amount else 0)) ∧
+      (∀ a d, balance s' a d = balance s a d - (if depositAddr = a ∧ c.denom = d then c.amount else 0) +
+        (if item.addr = a ∧ c.denom = d then c.amount else 0)) := by
+  unfold refundSub at h
+  cases hkd : item.kind with
+  | plan pid dn =>
+    rw [hkd] at h
+    simp only [pure_eq_ok] at h
+    subst h
+    exact ⟨⟨"", 0⟩, le_refl _, fun d => by rw [rem_plan hkd]; simp, fun a d => by simp, fun a d => by simp⟩
+  | node n gb hr dep =>
+    rw [hkd] at h
+    simp only [bind_eq_ok] at h
+    obtain ⟨s1, h1, h2⟩ := h
+    unfold SubWF at hw
+    rw [hkd] at hw
+    simp only [] at hw
+    obtain ⟨hdep, ⟨hgb, hhr, al, hal, _⟩ | ⟨hgb, hhr, p, hp, h3, h4, h5, h6, h7⟩⟩ := hw
+    · have hgb' : gb ≠ 0 := by omega
+      simp only [hgb', ne_eq, not_false_eq_true, if_true] at h1
+      simp only [hhr, ne_eq, not_true_eq_false, if_false, pure_eq_ok] at h2
+      subst h2
+      unfold refundGB subGigabytePrice at h1
+      simp only [bind_eq_ok, pure_eq_ok, orPanic_eq_ok, panicIfErr_eq_ok] at h1
+      obtain ⟨price, ⟨q, hq, hprice⟩, a, ha, paid, hpaid, ra, hra, refund, hrf, s2, h2', rfl⟩ := h1
+      rw [hal] at ha; cases ha
+      obtain ⟨_, eq⟩ := quo_eq_ok hq
+      obtain ⟨eprice, hq0⟩ := newCoin_eq_ok hprice
+      subst eprice
+      have epaid := charge_of_afb hq0 (hab _ _ hal).1 hpaid
+      have era := SInt.sub_eq_ok hra
+      obtain ⟨erf, hra0⟩ := newCoin_eq_ok hrf
+      subst erf
+      refine ⟨⟨dep.denom, ra⟩, hra0, fun d => ?_, fun a0 d => ?_, fun a0 d => ?_⟩
+      · rw [rem_gb hkd hgb', usedOf_some hal, era, epaid, eq]
+      · have e3 : ∀ e, escrowOf (emit s2 e) a0 d = escrowOf s2 a0 d := fun _ => rfl
+        rw [e3, subtractDeposit_escrow h2' a0 d]
+      · have e3 : ∀ e, balance (emit s2 e) a0 d = balance s2 a0 d := fun _ => rfl
+        rw [e3, subtractDeposit_balance h2' a0 d]
+    · subst hgb
+      simp only [ne_eq, not_true_eq_false, if_false, pure_eq_ok] at h1
+      subst h1
+      have hhr' : hr ≠ 0 := by omega
+      simp only [hhr', ne_eq, not_false_eq_true, if_true] at h2
+      unfold refundHr at h2
+      simp only [bind_eq_ok, pure_eq_ok, orPanic_eq_ok, panicIfErr_eq_ok] at h2
+      obtain ⟨p', hp', ra, hra, refund, hrf, s2, h2', rfl⟩ := h2
+      rw [hp] at hp'; cases hp'
+      have era := SInt.mul_eq_ok hra
+      obtain ⟨erf, hra0⟩ := newCoin_eq_ok hrf
+      subst erf
+      rw [h3] at h2'
+      refine ⟨⟨p.price.denom, ra⟩, hra0, fun d => ?_, fun a0 d => ?_, fun a0 d => ?_⟩
+      · rw [rem_hr hkd hp, era]
+      · have e3 : ∀ e, escrowOf (emit s2 e) a0 d = escrowOf s2 a0 d := fun _ => rfl
+        rw [e3, subtractDeposit_escrow h2' a0 d]
+      · have e3 : ∀ e, balance (emit s2 e) a0 d = balance s2 a0 d := fun _ => rfl
+        rw [e3, subtractDeposit_balance h2' a0 d]
+
+/-- **Removal settles exactly.** When the subscription pass of EndBlock removes subscription `k.2`
+(record `item`, no longer active), the record disappears and the coin `c` refunded — moved from the
+escrow module account to the subscriber's balance, out of the subscriber's own escrow record — is
+exactly the unsettled part `rem` of the subscription. -/
+theorem subscriptionStep_removal {s s' : State} {d : Dur} {k : Time × Nat} {item : Sub}
+    (h : subscriptionStep d s k = .ok s') (hitem : s.subs.get k.2 = some item) (hst : item.status ≠ .StatusActive)
+    (hk : Keyed s) (hab : AllocBounds s) (hi : EscrowSplit s) :
+    s'.subs = s.subs.erase k.2 ∧
+    ∃ c : Coin, 0 ≤ c.amount ∧ (∀ dn, rem s.allocs s.payouts k.2 item dn = if c.denom = dn then c.amount else 0) ∧
+      (∀ a dn, escrowOf s' a dn = escrowOf s a dn - (if item.addr = a ∧ c.denom = dn then c.amount else 0)) ∧
+      (∀ a dn, balance s' a dn = balance s a dn - (if depositAddr = a ∧ c.denom = dn then c.amount else 0) +
+        (if item.addr = a ∧ c.denom = dn then c.amount else 0)) := by
+  have hid : item.id = k.2 := hk.subs _ _ hitem
+  have hw := hi.wf _ _ hitem
+  obtain ⟨item', hitem', hor⟩ := subscriptionStep_tables h
+  rw [hitem] at hitem'; cases hitem'
+  rcases hor with ⟨hact, _⟩ | ⟨_, eS, _, _⟩
+  · exact absurd hact hst
+  · refine ⟨by rw [← hid]; exact eS, ?_⟩
+    unfold subscriptionStep at h
+    simp only [bind_eq_ok, orPanic_eq_ok] at h
+    obtain ⟨item', hitem', h⟩ := h
+    rw [hitem] at hitem'; cases hitem'
+    simp only [hst, if_false, bind_eq_ok] at h
+    obtain ⟨s2, h2, h3⟩ := h
+    rw [← hid] at hw ⊢
+    obtain ⟨c, hc0, hrem, hD, hB⟩ := refundSub_refund h2 hw (fun k al hg => hab k al hg)
+    have hv : view s' = view s2 := (removePayout_view h3).trans (view_removeSubRecords s2 item)
+    refine ⟨c, hc0, hrem, fun a dn => ?_, fun a dn => ?_⟩
+    · rw [escrowOf_deposits (deposits_of_view hv), hD a dn]; rfl
+    · rw [balance_bank (congrArg MoneyView.bank hv), hB a dn]; rfl
+
+/-- **A session is settled out of its subscriber's escrow record only, for exactly the drop of the
+subscription's unsettled part.**  `fee + net`, of denomination `dn`, leaves the escrow record of the
+owner of the session's subscription and reaches the fee collector and the node. -/
+theorem sessionInactiveHook_pays {s s' : State} {id : Nat} {acc node : Addr} {bytes : Int}
+    (h : sessionInactiveHook s id acc node bytes = .ok s') (hb : 0 ≤ bytes) (hk : Keyed s) (hx : SubIdx s)
+    (hab : AllocBounds s) (hi : EscrowSplit s) :
+    ∃ x sub dn fee net, s.sessions.get id = some x ∧ s.subs.get x.sub = some sub ∧ s'.subs = s.subs ∧ 0 ≤ fee ∧ 0 ≤ net ∧
+      (∀ d, rem s.allocs s.payouts x.sub sub d - rem s'.allocs s'.payouts x.sub sub d = if dn = d then fee + net else 0) ∧
+      (∀ a d, escrowOf s' a d = escrowOf s a d - (if sub.addr = a ∧ dn = d then fee + net else 0)) ∧
+      PaidOut s s' dn node fee net := by
+  unfold sessionInactiveHook at h
+  simp only [bind_eq_ok, require_eq_ok, orReject_eq_ok] at h
+  obtain ⟨x, hxs, _, hst, sub, hsub, h⟩ := h
+  have hid : sub.id = x.sub := hk.subs _ _ hsub
+  refine ⟨x, sub, ?_⟩
+  split at h
+  · rw [pure_eq_ok] at h; subst h
+    exact ⟨"", 0, 0, hxs, hsub, rfl, le_refl _, le_refl _, fun d => by simp, fun a d => by simp, paidOut_zero _ _ _⟩
+  · rename_i hh
+    simp only [bind_eq_ok, orReject_eq_ok] at h
+    obtain ⟨a, ha, used, hu, h⟩ := h
+    have hu' := SInt.add_eq_ok hu
+    subst hu'
+    obtain ⟨ka1, ka2⟩ := hk.allocs _ _ _ ha
+    have hbnd := hab _ _ ha
+    have hbnd' := allocAfterUse_bounds hbnd hb
+    rw [← hid] at hsub
+    have hw := hi.wf _ _ hsub
+    generalize hS1 : emit (setAllocation s (allocAfterUse a (a.used + bytes))) _ = S1 at h
+    have eS1 : S1.subs = s.subs := by rw [← hS1]; simp only [emit, setAllocation]
+    have eA1 : S1.allocs = s.allocs.set (sub.id, acc) (allocAfterUse a (a.used + bytes)) := by
+      rw [← hS1]; simp only [emit, setAllocation, allocAfterUse, ka1, ka2]
+    have eP1 : S1.payouts = s.payouts := by rw [← hS1]; simp only [emit, setAllocation]
+    have eD1 : S1.deposits = s.deposits := by rw [← hS1]; simp only [emit, setAllocation]
+    have eB1 : S1.bank = s.bank := by rw [← hS1]; simp only [emit, setAllocation]
+    cases hkd : sub.kind with
+    | plan pid dn =>
+      simp only [gbInfo, hkd, pure_eq_ok] at h
+      subst h
+      refine ⟨"", 0, 0, hxs, by rw [← hid]; exact hsub, eS1, le_refl _, le_refl _, fun d => ?_, fun a0 d => ?_, ?_⟩
+      · rw [rem_plan hkd, rem_plan hkd]; simp
+      · rw [escrowOf_deposits eD1]; simp
+      · exact (paidOut_zero s _ _).of_bank eB1
+    | node n gb hr dep =>
+      have hhr : hr = 0 := by
+        unfold isHourly at hh; rw [hkd] at hh; simpa using hh
+      subst hhr
+      have hw' := hw
+      unfold SubWF at hw'
+      rw [hkd] at hw'
+      simp only [] at hw'
+      obtain ⟨hdep, ⟨hgb, _, al, hal, hgr⟩ | ⟨_, hcontra, _⟩⟩ := hw'
+      · have hacc : acc = sub.addr :=
+          hx.nodeSubAlloc _ _ _ hsub (by unfold isPlanSub; rw [hkd]) (Tbl.has_of_get_B ha)
+        subst hacc
+        have hgb' : gb ≠ 0 := by omega
+        simp only [gbInfo, hkd, hgb', ne_eq, not_false_eq_true, if_true] at h
+        obtain ⟨fee, net, hf0, hn0, hsum, hD, hP⟩ := settleSession_pays h hbnd.1 hbnd'.1
+        have hfr := settleSession_frame h
+        have v := subView_of_moneyFrame hfr
+        have eS : s'.subs = s.subs := (congrArg SubView.subs v).trans eS1
+        have eA : s'.allocs = s.allocs.set (sub.id, sub.addr) (allocAfterUse a (a.used + bytes)) :=
+          (congrArg SubView.allocs v).trans eA1
+        have hget' : s'.allocs.get (sub.id, sub.addr) = some (allocAfterUse a (a.used + bytes)) := by
+          rw [eA, Tbl.get_set]; simp
+        refine ⟨dep.denom, fee, net, hxs, by rw [← hid]; exact hsub, eS, hf0, hn0, fun d => ?_, fun a0 d => ?_,
+          hP.of_bank_left eB1⟩
+        · rw [← hid, rem_gb hkd hgb', rem_gb hkd hgb', usedOf_some ha, usedOf_some hget', hsum]
+          by_cases e2 : dep.denom = d <;> simp [e2]
+        · rw [hD a0 d, escrowOf_deposits eD1, hsum]
+      · omega
+
 end Hub.Model.Escrow
